@@ -51,8 +51,9 @@ Qed.
 
 Section IP.
   Variable T : transformer.
+  Variable vt : bool.
   Variable root : stree.
-  Notation tr := (tr T).
+  Notation tr := (tr T vt).
 
   Definition cons_ok (x : path * stree) : Prop := subtree root (fst x) = Some (snd x).
 
@@ -122,14 +123,14 @@ Section IP.
   Lemma ip_children_value h p : good h -> forall ch i,
     (forall j c, nth_error ch j = Some c -> subtree root (p ++ [i + j]) = Some c) ->
     (forall j n ch', nth_error ch j = Some (Tr n ch') -> exists vs, hlookup h (p ++ [i + j]) = Some vs) ->
-    fst (ip_children T h p i ch) = map tr ch.
+    fst (ip_children T vt h p i ch) = map tr ch.
   Proof.
     intros Hg. induction ch as [|c ch IH]; intros i Hs Hh; simpl; auto.
-    assert (E : fst (ip_children T h p (S i) ch) = map tr ch).
+    assert (E : fst (ip_children T vt h p (S i) ch) = map tr ch).
     { apply IH.
       - intros j c' Hj. replace (S i + j) with (i + S j) by lia. apply (Hs (S j) c' Hj).
       - intros j n ch' Hj. replace (S i + j) with (i + S j) by lia. apply (Hh (S j) n ch' Hj). }
-    destruct (ip_children T h p (S i) ch) as [vs l2]. simpl in E. subst vs.
+    destruct (ip_children T vt h p (S i) ch) as [vs l2]. simpl in E. subst vs.
     destruct c as [ty v|n ch'|]; simpl; auto.
     f_equal. unfold cur_children.
     destruct (Hh 0 n ch' eq_refl) as [vs Hvs]. rewrite Nat.add_0_r in Hvs. rewrite Hvs.
@@ -138,12 +139,12 @@ Section IP.
   Qed.
 
   Lemma ip_fold_snoc a x :
-    ip_fold T (a ++ [x]) = let '(h', l') := ip_step T (fst (ip_fold T a)) x in (h', snd (ip_fold T a) ++ l').
+    ip_fold T vt (a ++ [x]) = let '(h', l') := ip_step T vt (fst (ip_fold T vt a)) x in (h', snd (ip_fold T vt a) ++ l').
   Proof. unfold ip_fold. rewrite fold_left_app. reflexivity. Qed.
 
   Lemma bfs_heap : forall f q l, bfs f q = Some l -> Forall cons_ok q ->
-    good (fst (ip_fold T (rev l))) /\
-    forall p n ch, In (p, Tr n ch) l -> hlookup (fst (ip_fold T (rev l))) p = Some (map tr ch).
+    good (fst (ip_fold T vt (rev l))) /\
+    forall p n ch, In (p, Tr n ch) l -> hlookup (fst (ip_fold T vt (rev l))) p = Some (map tr ch).
   Proof.
     induction f as [|f IH]; intros [|[p t] rest] l H Hq; simpl in H; try discriminate.
     - injection H as <-. split; [intros q vs Hl; discriminate|intros ? ? ? []].
@@ -157,16 +158,16 @@ Section IP.
       pose proof (bfs_cons_ok _ _ _ E Hq') as Hc'.
       pose proof (bfs_incl _ _ _ E) as Hincl.
       simpl rev. rewrite ip_fold_snoc.
-      set (h := fst (ip_fold T (rev l'))) in *.
+      set (h := fst (ip_fold T vt (rev l'))) in *.
       destruct t as [ty v|n ch|]; unfold ip_step; simpl.
       + split; auto. intros p' n' ch' [Hx|Hx]; [discriminate|]. apply (Hl _ n' _ Hx).
-      + assert (Hv : fst (ip_children T h p 0 ch) = map tr ch).
+      + assert (Hv : fst (ip_children T vt h p 0 ch) = map tr ch).
         { apply ip_children_value; auto.
           - intros j c Hj. simpl. rewrite subtree_snoc. unfold cons_ok in Hpt. simpl in Hpt. rewrite Hpt. exact Hj.
           - intros j n' ch' Hj. eexists. apply (Hl _ n' ch'). apply Hincl. apply in_or_app. right.
             apply in_rev. rewrite rev_involutive. unfold tree_kids. apply filter_In. split; auto.
             apply in_with_paths. exists j. auto. }
-        destruct (ip_children T h p 0 ch) as [vs lg]. simpl in Hv. subst vs. simpl.
+        destruct (ip_children T vt h p 0 ch) as [vs lg]. simpl in Hv. subst vs. simpl.
         split.
         * intros q vs Hlk n' ch' Hsub. simpl in Hlk. destruct (path_eqb p q) eqn:Epq.
           -- apply path_eqb_eq in Epq. subst q. injection Hlk as <-.
@@ -184,7 +185,7 @@ Section IP.
 
   Hypothesis Hroot : exists n ch, root = Tr n ch.
 
-  Theorem transform_ip_value : exists lg, transform_ip T root = Some (tr root, lg).
+  Theorem transform_ip_value : exists lg, transform_ip T vt root = Some (tr root, lg).
   Proof.
     destruct Hroot as (n & ch & Hr).
     unfold transform_ip, iter_subtrees.
@@ -192,7 +193,7 @@ Section IP.
     rewrite Hl. simpl.
     assert (Hq : Forall cons_ok [([], root)]) by (constructor; [reflexivity|constructor]).
     destruct (bfs_heap _ _ _ Hl Hq) as [Hg Hlk].
-    destruct (ip_fold T (rev l)) as [h lg] eqn:Ef. simpl in *.
+    destruct (ip_fold T vt (rev l)) as [h lg] eqn:Ef. simpl in *.
     rewrite Hr. eexists. f_equal. f_equal.
     unfold cur_children. rewrite (Hlk [] n ch).
     - rewrite <- Hr. simpl. rewrite Hr. reflexivity.
